@@ -16,13 +16,20 @@ fn body_src(kind: &str) -> &'static str {
         "assert" => "    assert_eq(1 + 1, 3)\n",
         "panic" => "    xs = [1, 2]\n    print(xs[5])\n",
         "divzero" => "    z = 0\n    print(1 // z)\n",
+        "assert_plain" => "    assert(1 == 2)\n",
+        "assert_true" => "    assert_true(1 > 2)\n",
+        "assert_false" => "    assert_false(1 < 2)\n",
+        "assert_ne" => "    assert_ne(3, 3)\n",
+        "fail" => "    fail(\"boom\")\n",
+        "unwrap_none" => "    print(helper_none(0).unwrap())\n",
         _ => "    assert_eq(2 + 2, 4)\n",
     }
 }
 
 fn render(tests: &[T]) -> String {
-    let mut s = String::from("from testing import assert_eq\n\n");
+    let mut s = String::from("from testing import assert, assert_eq, assert_ne, assert_true, assert_false, fail\n\n");
     s.push_str("def helper_not_a_test() -> int:\n    return 1\n\n");
+    s.push_str("def helper_none(n: int) -> Option[int]:\n    if n > 0:\n        return Some(n)\n    return None\n\n");
     for (i, t) in tests.iter().enumerate() {
         if t.skip {
             // every documented spelling of the marker (`@skip(reason: str = "")`)
@@ -130,12 +137,26 @@ pub fn run(out: &mut Out, tier: &str, seed: u64, scratch: &str) {
         false,
         false,
     );
+    // every way a body can fail must be reported FAILED (constant-message and formatted panics alike)
+    scenario(
+        out,
+        scratch,
+        &[t("test_k_plain", false, false, false, "assert_plain"), t("test_k_true", false, false, false, "assert_true"), t("test_k_false", false, false, false, "assert_false"),
+          t("test_k_ne", false, false, false, "assert_ne"), t("test_k_fail", false, false, false, "fail"), t("test_k_unwrap", false, false, false, "unwrap_none"), t("test_k_ok", false, false, false, "pass")],
+        "-",
+        false,
+        false,
+    );
+    // -k never brings a @slow test back in without --slow; with --slow the keyword still applies
+    let sel = vec![t("test_parse_fast", false, false, false, "pass"), t("test_parse_slow_bad", false, false, true, "assert"), t("test_other", false, false, false, "pass"), t("test_other_slow", false, false, true, "pass")];
+    scenario(out, scratch, &sel, "parse", false, false);
+    scenario(out, scratch, &sel, "parse", true, false);
     if tier == "thorough" {
         for _ in 0..6 {
             let n = 2 + rng.below(4) as usize;
             let mut ts = Vec::new();
             for i in 0..n {
-                let body = *rng.pick(&["pass", "pass", "assert", "panic", "divzero"]);
+                let body = *rng.pick(&["pass", "pass", "assert", "panic", "divzero", "assert_plain", "assert_true", "fail", "unwrap_none"]);
                 ts.push(t(&format!("test_r{i}_{}", rng.pick(&["alpha", "beta", "add"])), rng.chance(1, 6), rng.chance(1, 5), rng.chance(1, 6), body));
             }
             let filter = *rng.pick(&["-", "-", "add", "alpha", "r1"]);
